@@ -221,6 +221,9 @@ def c08_stacks(quick, r):
     S.append(("X(randomapply1(probe))", (lambda s: XTransformWrapper(ImgDS(8, "tensor"), T.KDRandomApply(DrawProbe(), p=1.0), seed=s)), "x", True))
     S.append(("X(scheduled(probe))", (lambda s: XTransformWrapper(ImgDS(8, "tensor"), KDScheduledTransform(DrawProbe(), schedule=ConstantSchedule(value=0.5)), seed=s)), "x", True))
     S.append(("MV(probe)", (lambda s: KDMultiViewWrapper(ImgDS(8, "tensor"), configs=[(2, DrawProbe())], seed=s)), "x", True))
+    S.append(("MV(probe,probe)", (lambda s: KDMultiViewWrapper(ImgDS(8, "tensor"), configs=[(1, DrawProbe()), (1, DrawProbe())], seed=s)), "x", True))
+    S.append(("MV(probe,compose(probe),probe)", (lambda s: KDMultiViewWrapper(ImgDS(8, "tensor"), configs=[
+        (1, DrawProbe()), (2, T.KDComposeTransform([DrawProbe()])), (1, DrawProbe())], seed=s)), "x", True))
     S.append(("Plain(X(probe))", (lambda s: Plain(XTransformWrapper(Plain(ImgDS(8, "tensor")), DrawProbe(), seed=s))), "x", True))
     # the ready-made wrappers of kappadata.common
     from kappadata.common.wrappers.sample_wrappers.byol_multi_view_wrapper import ByolMultiViewWrapper
@@ -283,15 +286,23 @@ def c08_trace(tid, name, build, item, probe, r, nreq):
                     exc = ""
                 except Exception as e:
                     out, exc = None, f"{type(e).__name__}:{str(e)[:120]}"
-                ev.append(dict(a="req", seed=seed, i=i, out=cls(gw.canon(out)), probe=bool(probe), exc=exc))
+                ev.append(dict(a="req", seed=seed, i=i, v=0, out=cls(gw.canon(out)), probe=bool(probe), exc=exc))
                 if exc:
                     return dict(id=tid, cfg=dict(name=name), ev=ev)
+                if probe and isinstance(out, (list, tuple)) and len(out) > 1:
+                    # every view of a multi-view sample is a stream of its own: no view of ANOTHER index may replay it
+                    for k, view in enumerate(out, start=1):
+                        ev.append(dict(a="req", seed=seed, i=i, v=k, out=cls(gw.canon(view)), probe=True, exc=""))
     except Exception as e:
-        ev.append(dict(a="req", seed=0, i=0, out=0, probe=False, exc=f"setup:{type(e).__name__}:{str(e)[:160]}"))
+        ev.append(dict(a="req", seed=0, i=0, v=0, out=0, probe=False, exc=f"setup:{type(e).__name__}:{str(e)[:160]}"))
     return dict(id=tid, cfg=dict(name=name), ev=ev)
 
 
 # ---------------------------------------------------------------- C09: worker initialisation
+def _identity_view(x):
+    return x
+
+
 def c09_stacks(quick, r):
     """(name, build() -> dataset with ModeWrapper-less stack, item)"""
     import catalog
@@ -323,12 +334,23 @@ def c09_stacks(quick, r):
             S.append((f"X({c}({n}))", (lambda mk=mk, k=k, c=c: XTransformWrapper(ImgDS(6, k), cont[c][0](mk))), "x"))
         S.append((f"X(compose(scheduled({n})))", (lambda mk=mk, k=k: XTransformWrapper(ImgDS(6, k), cont["compose"][0](lambda: cont["scheduled"][0](mk)))), "x"))
         S.append((f"MV({n})", (lambda mk=mk, k=k: KDMultiViewWrapper(ImgDS(6, k), configs=[(2, mk()), (1, cont["compose"][0](mk))])), "x"))
+        # a plain callable view (no KDTransform) before the stochastic one; a transform given as a list (config form)
+        S.append((f"MV(callable,{n})", (lambda mk=mk, k=k: KDMultiViewWrapper(ImgDS(6, k), configs=[(1, _identity_view), (1, mk())])), "x"))
+        S.append((f"X([{n}])", (lambda mk=mk, k=k: XTransformWrapper(ImgDS(6, k), [mk()])), "x"))
         S.append((f"Mode(Plain(X({n})))", (lambda mk=mk, k=k: ModeWrapper(Plain(XTransformWrapper(ImgDS(6, k), mk())), mode="x")), "mode"))
         S.append((f"Subset(X({n}))", (lambda mk=mk, k=k: KDSubset(XTransformWrapper(ImgDS(6, k), mk()), [0, 2, 3])), "x"))
         S.append((f"Concat(X({n}),X({n}))", (lambda mk=mk, k=k: KDConcatDataset([XTransformWrapper(ImgDS(3, k), mk()), XTransformWrapper(ImgDS(3, k), mk())])), "x"))
     for n in [m for m in names if leaves[m][1] == "tensor"][:4]:
         mk = leaves[n][0]
         S.append((f"X(patchwise({n}))", (lambda mk=mk: XTransformWrapper(ImgDS(6, "tensor16"), cont["patchwise"][0](mk))), "x"))
+
+    def shared_configs():
+        # a seeded evaluation wrapper and an unseeded training wrapper built from the SAME configuration objects live
+        # in one worker (what the interleaved scheduler's concat dataset holds); the probe returns its draws
+        cfgs = [(1, DrawProbe())]
+        return KDConcatDataset([KDMultiViewWrapper(ImgDS(3, "tensor"), configs=cfgs, seed=5),
+                                KDMultiViewWrapper(ImgDS(3, "tensor"), configs=cfgs)])
+    S.append(("Concat(MVseeded(cfg),MV(cfg)) one configuration object, probe", shared_configs, "x"))
     # the concat dataset the InterleavedSampler builds over main + side datasets (its own worker_init_fn)
     from kappadata.samplers.interleaved_sampler import InterleavedSampler, InterleavedSamplerConfig
     from torch.utils.data import SequentialSampler
@@ -440,6 +462,10 @@ def c09_trace(tid, name, build, item, r, nreq):
             # the same worker seed reproduces the same outputs
             ev.append(dict(a="node", path="<outputs>", sameseed=sameseed, drawn=False, sa=cls(gw.canon(outs[0])),
                            sb=cls(gw.canon(outs[1])), exc=""))
+            if name.startswith("Concat(MVseeded(cfg),MV(cfg))") and nreq >= 6:
+                # the draws the UNSEEDED part handed out (after its seeded sibling was read): a worker stream like any other
+                ev.append(dict(a="node", path="<draws of the unseeded part>", sameseed=sameseed, drawn=True,
+                               sa=cls(gw.canon(outs[0][3:6])), sb=cls(gw.canon(outs[1][3:6])), exc=""))
     except Exception as e:
         ev.append(dict(a="node", path="", sameseed=False, drawn=False, sa=0, sb=0, exc=f"{type(e).__name__}:{str(e)[:160]}"))
     return dict(id=tid, cfg=dict(name=name), ev=ev)
@@ -512,15 +538,35 @@ class _StateProbeDS:
         self.ds.worker_init_fn(wid, batch_size=1, dataset_len=len(self), world_size=1, drop_last=True, updates=100000)
 
 
-def loader_run(ds, item, num_workers, base_seed):
-    """one pass of a real DataLoader; returns [(index, worker, digest, before, after)] in index order"""
+def loader_run(ds, item, num_workers, base_seed, init=True):
+    """one pass of a real DataLoader; returns [(index, worker, digest, before, after)] in index order.
+    init=False: the loader is created WITHOUT a worker_init_fn (legal; a seeded wrapper does not depend on it)"""
     import torch
     probe = _StateProbeDS(ds, item)
     g = torch.Generator()
     g.manual_seed(base_seed)
     dl = torch.utils.data.DataLoader(probe, batch_size=1, shuffle=False, num_workers=num_workers, collate_fn=lambda b: b[0],
-                                     worker_init_fn=(probe.worker_init_fn if num_workers > 0 else None), generator=g)
+                                     worker_init_fn=(probe.worker_init_fn if num_workers > 0 and init else None), generator=g)
     return [(i,) + tuple(x) for i, x in enumerate(dl)]
+
+
+def c08_mugs_decisions(tid, r):
+    """MUGSMultiViewWrapper records its weak/strong decision per sample in the context: one draw per index"""
+    from kappadata.common.wrappers.sample_wrappers.mugs_multi_view_wrapper import MUGSMultiViewWrapper
+    ImgDS, _ = make_datasets()
+    ev = []
+    for seed in (0, r.randint(1, 10 ** 5)):
+        try:
+            ds = MUGSMultiViewWrapper(ImgDS(48, "pil32"), global_size=8, local_size=8, num_local_crops=1, seed=seed)
+            vals = []
+            for i in range(48):
+                ctx = {}
+                ds.getitem_x(i, ctx)
+                vals.append(int(bool(ctx["is_weak_global_aug"])))
+            ev.append(dict(a="vary", vals=vals, exc=""))
+        except Exception as e:
+            ev.append(dict(a="vary", vals=[], exc=f"{type(e).__name__}:{str(e)[:120]}"))
+    return dict(id=tid, cfg=dict(name="MUGS weak/strong decisions over 48 indices"), ev=ev)
 
 
 def c08_loader_trace(tid, name, build, item, probe, r):
@@ -529,13 +575,15 @@ def c08_loader_trace(tid, name, build, item, probe, r):
     cls = gw.ClassIds()
     seed = r.randint(1, 10 ** 5)
     try:
-        for nw in (0, 2, 3, 2):
+        for nw, init in ((0, True), (2, True), (3, True), (2, True), (2, False), (1, False)):
+            if not init and "scheduled" in name:
+                continue    # a scheduled transform needs the worker initialisation for its progress counter
             gw.perturb_globals(r.randint(0, 10 ** 6))
             ds = build(seed)
-            for (i, wid, dig, _b, _a) in loader_run(ds, item, nw, r.randint(0, 10 ** 6)):
-                ev.append(dict(a="req", seed=seed, i=i, out=cls(dig), probe=bool(probe), exc=""))
+            for (i, wid, dig, _b, _a) in loader_run(ds, item, nw, r.randint(0, 10 ** 6), init=init):
+                ev.append(dict(a="req", seed=seed, i=i, v=0, out=cls(dig), probe=bool(probe), exc=""))
     except Exception as e:
-        ev.append(dict(a="req", seed=0, i=0, out=0, probe=False, exc=f"loader:{type(e).__name__}:{str(e)[:160]}"))
+        ev.append(dict(a="req", seed=0, i=0, v=0, out=0, probe=False, exc=f"loader:{type(e).__name__}:{str(e)[:160]}"))
     return dict(id=tid, cfg=dict(name=name + " via DataLoader(0,2,3 workers)"), ev=ev)
 
 
@@ -647,8 +695,10 @@ def run(prop, tier, seed):
         for tid, (name, build, item, probe) in enumerate(stacks, start=1):
             traces.append(c08_trace(tid, name, build, item, probe, r, 14 if quick else 40))
         # a few stacks through real DataLoaders (all probes + a sample of the others)
-        pick = [s_ for s_ in stacks if s_[3]][: (2 if quick else 6)] + r.sample([s_ for s_ in stacks if not s_[3]],
-                                                                                 3 if quick else 15)
+        # (no default-scheduled transforms here: their strength follows the worker's progress counter, which a
+        # num_workers=0 pass without initialisation does not have - that is the schedule, not a seeding matter)
+        pick = [s_ for s_ in stacks if s_[3]][: (2 if quick else 6)] + r.sample(
+            [s_ for s_ in stacks if not s_[3] and "scheduled(" not in s_[0]], 3 if quick else 15)
         for (name, build, item, probe) in pick:
             traces.append(c08_loader_trace(len(traces) + 1, name, build, item, probe, r))
         # the same (seed, i) computed in other interpreter processes (different PYTHONHASHSEED)
@@ -656,9 +706,10 @@ def run(prop, tier, seed):
         probes = {s_[0]: s_[3] for s_ in stacks}
         for name, table in c08_other_processes(multi, r).items():
             cls = gw.ClassIds()
-            ev = [dict(a="req", seed=sd, i=i, out=cls(d), probe=bool(probes[name]), exc="")
+            ev = [dict(a="req", seed=sd, i=i, v=0, out=cls(d), probe=bool(probes[name]), exc="")
                   for (sd, i), digs in sorted(table.items()) for d in digs]
             traces.append(dict(id=len(traces) + 1, cfg=dict(name=name + " in 3 interpreter processes"), ev=ev))
+        traces.append(c08_mugs_decisions(len(traces) + 1, r))
         rule = ("one case = one seeded wrapper stack: two seeds, three copies (the original and two initialised simulated "
                 "workers), random request orders with repetitions and global-state perturbations; non-trivial = every "
                 "stack (each has a stochastic member); distinct by stack name")
